@@ -394,11 +394,27 @@ struct TimeCase {
     wi: u64,
     bi: u64,
     movetime: Option<u64>,
+    /// other standard `go` parameters around the limits (0 = none): the engine does not act on
+    /// them, the limits must be honoured all the same
+    extra: u8,
 }
 
 impl TimeCase {
     fn cmd(&self) -> String {
         let c = self.cmd_plain();
+        let sm = if self.white_to_move { ["f1c4", "d2d4"] } else { ["b8c6", "d7d6"] };
+        let c = match self.extra {
+            1 => c.replacen("go ", "go ponder ", 1),
+            2 => c.replacen("go ", &format!("go searchmoves {} {} ", sm[0], sm[1]), 1),
+            3 => format!("{c} movestogo 30"),
+            4 => c.replacen("go ", "go movestogo 1 ", 1),
+            5 => c.replacen("go ", &format!("go searchmoves {} ", sm[0]), 1),
+            6 => format!("{c} ponder"),
+            7 => c.replacen("go ", "go nodes 100000000 ", 1),
+            8 => c.replacen("go ", "go mate 30 ", 1),
+            9 => format!("{c} searchmoves {} {}", sm[0], sm[1]),
+            _ => c,
+        };
         if self.with_depth {
             // the depth limit is far beyond what the budget allows: the budget must end the search
             if self.delay_ms % 2 == 0 { format!("{c} depth 60") } else { c.replacen("go ", "go depth 60 ", 1) }
@@ -418,7 +434,7 @@ impl TimeCase {
         }
     }
     fn json(&self) -> Value {
-        json!({"kind":"time","white_to_move":self.white_to_move,"cmd":self.cmd(),"wtime":self.w,"btime":self.b,"winc":self.wi,"binc":self.bi,"movetime":self.movetime,"delay_ms":self.delay_ms,"both":self.both,"with_depth":self.with_depth})
+        json!({"kind":"time","white_to_move":self.white_to_move,"cmd":self.cmd(),"wtime":self.w,"btime":self.b,"winc":self.wi,"binc":self.bi,"movetime":self.movetime,"delay_ms":self.delay_ms,"both":self.both,"with_depth":self.with_depth,"extra":self.extra})
     }
     fn available(&self) -> u64 {
         if self.both > 0 {
@@ -466,13 +482,13 @@ fn gen_time_case(rng: &mut Rng) -> TimeCase {
         }
     };
     if rng.chance(1, 6) {
-        return TimeCase { with_depth: false, both: 0, delay_ms: 0, white_to_move: rng.chance(1, 2), w: 0, b: 0, wi: 0, bi: 0, movetime: Some(match rng.below(4) { 0 => rng.range(0, 6), 1 => rng.range(0, 500), 2 => rng.range(500, 100_000), _ => rng.range(0, 60) }) };
+        return TimeCase { extra: 0, with_depth: false, both: 0, delay_ms: 0, white_to_move: rng.chance(1, 2), w: 0, b: 0, wi: 0, bi: 0, movetime: Some(match rng.below(4) { 0 => rng.range(0, 6), 1 => rng.range(0, 500), 2 => rng.range(500, 100_000), _ => rng.range(0, 60) }) };
     }
     let w = clock(rng);
     let b = clock(rng);
     let wi = inc(rng, w);
     let bi = inc(rng, b);
-    TimeCase { with_depth: false, both: 0, delay_ms: 0, white_to_move: rng.chance(1, 2), w, b, wi, bi, movetime: None }
+    TimeCase { extra: 0, with_depth: false, both: 0, delay_ms: 0, white_to_move: rng.chance(1, 2), w, b, wi, bi, movetime: None }
 }
 
 fn c13_one(out: &mut Out, sess: &mut Option<Session>, checked: bool, tc: &TimeCase, wall_limit_for_wait: u64) {
@@ -634,12 +650,12 @@ pub fn worker_c13(shard: usize, _nshards: usize, seed: u64, tier: &str, out: &mu
     let fixed: Vec<TimeCase> = {
         let mut v = vec![];
         for (w, wi) in [(1000u64, 0u64), (0, 0), (7499, 0), (7500, 0), (7501, 0), (100, 5000), (149, 0), (150, 0), (151, 0), (8000, 0), (60000, 1000), (10, 100000), (7400, 1), (1, 149), (1, 150), (1, 151)] {
-            v.push(TimeCase { with_depth: false, both: 0, delay_ms: 0, white_to_move: true, w, b: 60000, wi, bi: 0, movetime: None });
-            v.push(TimeCase { with_depth: false, both: 0, delay_ms: 0, white_to_move: false, w: 60000, b: w, wi: 0, bi: wi, movetime: None });
+            v.push(TimeCase { extra: 0, with_depth: false, both: 0, delay_ms: 0, white_to_move: true, w, b: 60000, wi, bi: 0, movetime: None });
+            v.push(TimeCase { extra: 0, with_depth: false, both: 0, delay_ms: 0, white_to_move: false, w: 60000, b: w, wi: 0, bi: wi, movetime: None });
         }
         for m in [0u64, 1, 2, 3, 4, 5, 6, 10, 100, 499] {
-            v.push(TimeCase { with_depth: false, both: 0, delay_ms: 0, white_to_move: m % 2 == 0, w: 0, b: 0, wi: 0, bi: 0, movetime: Some(m) });
-            v.push(TimeCase { with_depth: false, both: 0, delay_ms: 60, white_to_move: m % 2 == 1, w: 0, b: 0, wi: 0, bi: 0, movetime: Some(m) });
+            v.push(TimeCase { extra: 0, with_depth: false, both: 0, delay_ms: 0, white_to_move: m % 2 == 0, w: 0, b: 0, wi: 0, bi: 0, movetime: Some(m) });
+            v.push(TimeCase { extra: 0, with_depth: false, both: 0, delay_ms: 60, white_to_move: m % 2 == 1, w: 0, b: 0, wi: 0, bi: 0, movetime: Some(m) });
         }
         v
     };
@@ -698,6 +714,10 @@ pub fn worker_c13(shard: usize, _nshards: usize, seed: u64, tier: &str, out: &mu
             }
             out.add("cases_with_move_time_and_clocks", 1);
         }
+        if i % 4 == 3 {
+            tc.extra = 1 + rng.below(9) as u8;
+            out.add("cases_with_other_go_parameters", 1);
+        }
         out.begin(&tc.json());
         let checked = i % 5 == 4;
         if checked {
@@ -728,6 +748,7 @@ pub fn run_c13(tier: &str, seed: u64) -> i32 {
         let mut o2 = Out::open(res.to_str().unwrap());
         let c = &v["case"];
         let tc = TimeCase {
+            extra: c["extra"].as_u64().unwrap_or(0) as u8,
             with_depth: c["with_depth"].as_bool().unwrap_or(false),
             both: c["both"].as_u64().unwrap_or(0) as u8,
             delay_ms: c["delay_ms"].as_u64().unwrap_or(0),
@@ -748,7 +769,7 @@ pub fn run_c13(tier: &str, seed: u64) -> i32 {
     *agg.ctr.entry("late_or_missing_announcements_reproduced".into()).or_insert(0) += reproduced;
     chk.evaluations = agg.c("time_cases");
     chk.distinct_nontrivial = agg.c("cases_below_latency_allowance") + agg.c("cases_increment_above_clock") + agg.c("movetime_cases");
-    chk.rule = "case = one `go wtime W btime B winc I binc J` or `go movetime M` sent to the real binary for a white-to-move or black-to-move position; observed: the `info time` line (decides the arithmetic verdict), stderr/exit status, and for budgets <= 300 ms the wall time to `bestmove` (a late announcement counts only when reproduced alone). W,B: dense in [0,10^4], boundary values 0/1/149/150/151/7499/7500/7501, log-uniform to 10^7; I,J in {0,1,10,100,149..151,1000,10^4, above the clock, random}; M in [0,10^5]. Every fifth case runs on the overflow-checking build. non-trivial = the 2% share plus increment is below the 150 ms allowance, or the increment exceeds the clock, or a movetime case (counted).".into();
+    chk.rule = "case = one `go wtime W btime B winc I binc J` or `go movetime M` sent to the real binary for a white-to-move or black-to-move position; observed: the `info time` line (decides the arithmetic verdict), stderr/exit status, and for budgets <= 300 ms the wall time to `bestmove` (a late announcement counts only when reproduced alone). W,B: dense in [0,10^4], boundary values 0/1/149/150/151/7499/7500/7501, log-uniform to 10^7; I,J in {0,1,10,100,149..151,1000,10^4, above the clock, random}; M in [0,10^5]. Every fourth case carries another standard `go` parameter around the limits (ponder, searchmoves with one or two moves, movestogo, nodes, mate; before or after the limits) which must not change what is allotted. Every fifth case runs on the debug-assertions build. non-trivial = the 2% share plus increment is below the 150 ms allowance, or the increment exceeds the clock, or a movetime case (counted).".into();
     chk.assumptions = vec![
         "`go` with clocks but without increments runs untimed (no budget is computed): outside the property's quantifier, not judged".into(),
         "wall-clock is only a tiebreak; the printed budget is the deciding observation".into(),
@@ -762,11 +783,13 @@ pub fn run_c13(tier: &str, seed: u64) -> i32 {
     chk.need("cases with the timer window stretched", agg.c("cases_with_stretched_timer_window"), 50);
     chk.need("cases with a move time and clocks together", agg.c("cases_with_move_time_and_clocks"), 50);
     chk.need("cases with a depth limit and a time budget", agg.c("cases_with_a_depth_limit_and_a_time_budget"), 50);
+    chk.need("cases with other go parameters around the limits", agg.c("cases_with_other_go_parameters"), 200);
     finalize(chk, &agg)
 }
 
 pub fn replay_c13(case: &Value, out: &mut Out) {
     let tc = TimeCase {
+        extra: case["extra"].as_u64().unwrap_or(0) as u8,
         with_depth: case["with_depth"].as_bool().unwrap_or(false),
         both: case["both"].as_u64().unwrap_or(0) as u8,
         delay_ms: case["delay_ms"].as_u64().unwrap_or(0),
@@ -1205,6 +1228,113 @@ pub fn replay_ucisample(prop: &str, case: &Value, out: &mut Out) {
 }
 
 /// C20 through the binary: `position fen F moves ...` + `show`, parsed like the in-process display.
+/// One `position ...; show` exchange on a live session, judged against the oracle. `prelude`
+/// are commands sent just before (other `position` commands whose game must be replaced
+/// entirely); `startpos_form` writes the standard start as `startpos` instead of its FEN.
+/// Returns false if the engine stopped answering.
+fn c20_show_one(out: &mut Out, sess: &mut Session, keys: &chess_oracle::zobrist::Keys, prelude: &[String], root: &Root, startpos_form: bool) -> bool {
+    let Ok(start) = fen::parse_strict(&root.fen) else { return true };
+    let mut p = start.clone();
+    let mut hist: Vec<(Pos, Mv)> = vec![];
+    for t in &root.moves {
+        let Some(m) = p.find_uci(t) else { break };
+        hist.push((p.clone(), m));
+        p = p.make(&m);
+    }
+    let case = json!({"kind":"show","root":root.json(),"prelude":prelude,"startpos_form":startpos_form});
+    sess.log.clear();
+    for c in prelude {
+        sess.send(c);
+    }
+    let mut cmd = if startpos_form && root.fen == gen::START_FEN { "position startpos".to_string() } else { format!("position fen {}", root.fen) };
+    if !root.moves.is_empty() || !startpos_form {
+        // (a trailing `moves` keyword with an empty list is what the plain form has always sent)
+        cmd.push_str(" moves ");
+        cmd.push_str(&root.moves.join(" "));
+    }
+    sess.send(cmd.trim_end());
+    sess.send("show");
+    sess.send("isready");
+    let mut lines = vec![];
+    let ok = loop {
+        match sess.next(Duration::from_secs(15)) {
+            Some(ev) if ev.kind == Kind::Out => {
+                if ev.text == "readyok" {
+                    break true;
+                }
+                lines.push(ev.text);
+            }
+            Some(ev) if ev.kind == Kind::OutEof => break false,
+            Some(_) => {}
+            None => break false,
+        }
+    };
+    let f4 = fen::render4(&p);
+    if !ok {
+        out.viol("C20", &format!("C20|show-died|{f4}"), &format!("engine stopped answering at show: {}", sess.stderr_text()), case);
+        return false;
+    }
+    let shown = parse_shown(&lines);
+    out.add("shows_checked", 1);
+    if !prelude.is_empty() {
+        out.add("shows_after_another_position_command", 1);
+    }
+    if startpos_form && root.fen == gen::START_FEN {
+        out.add("shows_in_startpos_form", 1);
+    }
+    let mut d = vec![];
+    if !shown.errors.is_empty() {
+        d.push(format!("errors {:?}", shown.errors));
+    }
+    if shown.fen.as_deref().map(fen4).as_deref() != Some(f4.as_str()) {
+        d.push(format!("Fen line {:?} for position {f4}", shown.fen));
+    }
+    let want_hash = format!("{:X}", keys.hash(&p));
+    if shown.hash.as_deref() != Some(want_hash.as_str()) {
+        d.push(format!("Hash line {:?}, position hashes to {want_hash}", shown.hash));
+    }
+    if shown.ranks.len() != 8 || !shown.files_line {
+        d.push("diagram incomplete".to_string());
+    }
+    for (label, cells) in &shown.ranks {
+        let parts: Vec<&str> = cells.split('|').collect();
+        if parts.len() != 10 || !(1..=8).contains(label) {
+            d.push(format!("rank line {label} malformed"));
+            continue;
+        }
+        for f in 0..8usize {
+            let want = p.b[o::sq(f as i8, (*label - 1) as i8) as usize];
+            let glyph = parts[f + 1];
+            let expect_glyphs: &[&str] = match want {
+                0 => &[" "],
+                1 => &["♙", "P"], 2 => &["♘", "N"], 3 => &["♗", "B"], 4 => &["♖", "R"], 5 => &["♕", "Q"], 6 => &["♔", "K"],
+                9 => &["♟", "p"], 10 => &["♞", "n"], 11 => &["♝", "b"], 12 => &["♜", "r"], 13 => &["♛", "q"], _ => &["♚", "k"],
+            };
+            if !expect_glyphs.contains(&glyph) {
+                d.push(format!("diagram shows {glyph:?} on {}{label}", (b'a' + f as u8) as char));
+            }
+        }
+    }
+    let toks = record_tokens(shown.pgn.as_deref().unwrap_or(""));
+    if toks.len() != hist.len() {
+        d.push(format!("move record has {} moves, {} were played", toks.len(), hist.len()));
+    } else {
+        for (i, ((before, m), tok)) in hist.iter().zip(toks.iter()).enumerate() {
+            out.add("show_tokens_checked", 1);
+            let dis = token_disagreements(tok, &move_facts(before, m));
+            if !dis.is_empty() {
+                d.push(format!("move {} ({}) recorded as {tok:?}: {}", i + 1, m.uci(), dis.join("; ")));
+                break;
+            }
+        }
+    }
+    if !d.is_empty() {
+        let pre = if prelude.is_empty() { String::new() } else { format!(" (sent right after {:?})", prelude) };
+        out.viol("C20", &format!("C20|show|{f4}"), &format!("`{}` + `show`{pre}: {}", if cmd.len() > 120 { format!("{}...", &cmd[..120]) } else { cmd.clone() }, d.join(" | ")), case);
+    }
+    true
+}
+
 pub fn worker_c20show(shard: usize, nshards: usize, seed: u64, tier: &str, out: &mut Out) {
     let corpus = gen::corpus();
     let keys = crate::pgn::load_keys();
@@ -1216,98 +1346,54 @@ pub fn worker_c20show(shard: usize, nshards: usize, seed: u64, tier: &str, out: 
         out.inconclusive("cannot start the engine");
         return;
     };
+    let mut rng = Rng::new(seed, 0x2021 + shard as u64);
     for gi in 0..n {
         let mut spec = gen::game_spec(&corpus, seed ^ 0x2020, gi as u64 * nshards as u64 + shard as u64);
         spec.policy = [3u8, 7, 4, 1, 0, 8][gi % 6];
         spec.max_plies = spec.max_plies.min(160);
-        let moves = game_moves(&spec);
-        let Ok(start) = fen::parse_strict(&spec.start_fen) else { continue };
-        let mut p = start.clone();
-        let mut hist: Vec<(Pos, Mv)> = vec![];
-        for t in &moves {
-            let Some(m) = p.find_uci(t) else { break };
-            hist.push((p.clone(), m));
-            p = p.make(&m);
+        if gi % 4 == 1 {
+            spec.start_fen = gen::START_FEN.into();
         }
-        let root = Root { fen: spec.start_fen.clone(), moves: moves.clone() };
-        out.begin(&json!({"kind":"show","root":root.json()}));
-        sess.log.clear();
-        sess.send(&format!("position fen {} moves {}", root.fen, root.moves.join(" ")));
-        sess.send("show");
-        sess.send("isready");
-        let mut lines = vec![];
-        let ok = loop {
-            match sess.next(Duration::from_secs(15)) {
-                Some(ev) if ev.kind == Kind::Out => {
-                    if ev.text == "readyok" {
-                        break true;
-                    }
-                    lines.push(ev.text);
-                }
-                Some(ev) if ev.kind == Kind::OutEof => break false,
-                Some(_) => {}
-                None => break false,
+        let mut moves = game_moves(&spec);
+        if gi % 7 == 3 {
+            // a bare position, or a very short record
+            moves.truncate(rng.below(3) as usize);
+        }
+        let root = Root { fen: spec.start_fen.clone(), moves };
+        // what the engine held before: nothing new, a bare FEN, the bare start, or another game
+        let mut prelude: Vec<String> = vec![];
+        match rng.below(6) {
+            0 => prelude.push(format!("position fen {}", rng.pick(&corpus))),
+            1 => prelude.push("position startpos".into()),
+            2 => {
+                let other = gen::game_spec(&corpus, seed ^ 0x2022, rng.next() % 100_000);
+                let mut om = game_moves(&other);
+                om.truncate(1 + rng.below(12) as usize);
+                prelude.push(format!("position fen {} moves {}", other.start_fen, om.join(" ")));
             }
-        };
-        let f4 = fen::render4(&p);
-        let case = json!({"kind":"show","root":root.json()});
-        if !ok {
-            out.viol("C20", &format!("C20|show-died|{f4}"), &format!("engine stopped answering at show: {}", sess.stderr_text()), case);
+            _ => {}
+        }
+        out.begin(&json!({"kind":"show","root":root.json(),"prelude":prelude,"startpos_form":gi % 2 == 1}));
+        let alive = c20_show_one(out, &mut sess, &keys, &prelude, &root, gi % 2 == 1);
+        out.end();
+        if !alive {
             return;
         }
-        let shown = parse_shown(&lines);
-        out.add("shows_checked", 1);
-        let mut d = vec![];
-        if !shown.errors.is_empty() {
-            d.push(format!("errors {:?}", shown.errors));
-        }
-        if shown.fen.as_deref().map(fen4).as_deref() != Some(f4.as_str()) {
-            d.push(format!("Fen line {:?} for position {f4}", shown.fen));
-        }
-        let want_hash = format!("{:X}", keys.hash(&p));
-        if shown.hash.as_deref() != Some(want_hash.as_str()) {
-            d.push(format!("Hash line {:?}, position hashes to {want_hash}", shown.hash));
-        }
-        if shown.ranks.len() != 8 || !shown.files_line {
-            d.push("diagram incomplete".to_string());
-        }
-        for (label, cells) in &shown.ranks {
-            let parts: Vec<&str> = cells.split('|').collect();
-            if parts.len() != 10 || !(1..=8).contains(label) {
-                d.push(format!("rank line {label} malformed"));
-                continue;
-            }
-            for f in 0..8usize {
-                let want = p.b[o::sq(f as i8, (*label - 1) as i8) as usize];
-                let glyph = parts[f + 1];
-                let expect_glyphs: &[&str] = match want {
-                    0 => &[" "],
-                    1 => &["♙", "P"], 2 => &["♘", "N"], 3 => &["♗", "B"], 4 => &["♖", "R"], 5 => &["♕", "Q"], 6 => &["♔", "K"],
-                    9 => &["♟", "p"], 10 => &["♞", "n"], 11 => &["♝", "b"], 12 => &["♜", "r"], 13 => &["♛", "q"], _ => &["♚", "k"],
-                };
-                if !expect_glyphs.contains(&glyph) {
-                    d.push(format!("diagram shows {glyph:?} on {}{label}", (b'a' + f as u8) as char));
-                }
-            }
-        }
-        let toks = record_tokens(shown.pgn.as_deref().unwrap_or(""));
-        if toks.len() != hist.len() {
-            d.push(format!("move record has {} moves, {} were played", toks.len(), hist.len()));
-        } else {
-            for (i, ((before, m), tok)) in hist.iter().zip(toks.iter()).enumerate() {
-                out.add("show_tokens_checked", 1);
-                let dis = token_disagreements(tok, &move_facts(before, m));
-                if !dis.is_empty() {
-                    d.push(format!("move {} ({}) recorded as {tok:?}: {}", i + 1, m.uci(), dis.join("; ")));
-                    break;
-                }
-            }
-        }
-        if !d.is_empty() {
-            out.viol("C20", &format!("C20|show|{f4}"), &format!("`show` after {} moves from {}: {}", hist.len(), spec.start_fen, d.join(" | ")), case);
-        }
-        out.end();
     }
+    sess.send("quit");
+    let _ = sess.wait_exit(Duration::from_secs(5));
+}
+
+pub fn replay_c20show(case: &Value, out: &mut Out) {
+    let Some(root) = Root::from_json(&case["root"]) else { return };
+    let keys = crate::pgn::load_keys();
+    let prelude: Vec<String> = case["prelude"].as_array().map(|a| a.iter().filter_map(|x| x.as_str().map(|s| s.to_string())).collect()).unwrap_or_default();
+    let Ok(mut sess) = Session::spawn(&engine_bin(false), &[], &[], None) else {
+        out.inconclusive("cannot start the engine");
+        return;
+    };
+    println!("replaying show case: prelude {prelude:?}, root {}", root.json());
+    c20_show_one(out, &mut sess, &keys, &prelude, &root, case["startpos_form"].as_bool().unwrap_or(false));
     sess.send("quit");
     let _ = sess.wait_exit(Duration::from_secs(5));
 }
